@@ -205,6 +205,8 @@ func resolveUnder(db shared.DBNodeMap, maxDepth int, entry string, plan OrderPla
 			ob.OrderModes[plan.Mode]++
 		}
 	}()
+	enterSUT()
+	defer leaveSUT()
 	if entry == "struct" {
 		err = resolver.NewResolver(db, resolver.Config{MaxDepth: maxDepth}).Resolve()
 	} else {
